@@ -1,14 +1,71 @@
 """C01-C04 share one suite for the agent scheduler (harness/schedlib.py, props/schedsuite.py);
 C01-C03 also cover the application-level slot finder (props/nodelistsuite.py)."""
+import rpload
 from props import schedsuite, nodelistsuite, noopsuite
 PROP = 'C03'
 LEAN_TARGETS = ['RPVerif.Props.C03', 'RPVerif.Props.C07']
+def run_stubborn_cancel(rp, steps_before_exit):
+    """the real Popen.cancel_task on a running task whose process does not end at once when the launcher signals it (it is no
+    process group leader, it traps the signal, ranks outlive the launcher): the executor gives the task's resources back
+    only when the process is gone.  Returns how many releases were published while the process was still running, and
+    in all."""
+    import coop
+    from props import c07
+    rec = []
+    p = c07.make_executor(rp, rec, {'fault': False})
+    class SlowProc(object):
+        pid, code = 4243, None
+        def poll(self): return self.code
+        def wait(self, timeout=None):
+            while self.code is None: coop.point('wait')
+            return self.code
+    class L(object):
+        def cancel_task(self, task, pid): pass          # (the signal is sent; the process goes on for a while)
+    class RM(object):
+        def get_launcher(self, name): return L()
+    p._rm = RM()
+    proc = SlowProc()
+    task = {'uid': 'task.000000', 'state': 'AGENT_EXECUTING', 'origin': 'client', 'proc': proc, 'launcher_name': 'FORK',
+            'description': {'raptor_id': None}, 'slots': []}
+    p._tasks['task.000000'] = task
+    ctl = coop.Controller()
+    early = 0
+    try:
+        ctl.spawn('cancel', lambda: p.cancel_task(task), run_to_first_point=False)
+        for _ in range(steps_before_exit):
+            if ctl.where('cancel') != 'done': ctl.grant('cancel')
+            early = max(early, sum(1 for r in rec if r[0] == 'unsched'))
+        proc.code = -15
+        for _ in range(50):
+            if ctl.where('cancel') == 'done': break
+            ctl.grant('cancel')
+    finally:
+        ctl.close()
+    return early, sum(1 for r in rec if r[0] == 'unsched')
+
+
+def stubborn_cancel_part(ctx, rp):
+    for k in (1, 2, 3, 5):
+        early, total = run_stubborn_cancel(rp, k)
+        ctx.case({'stubborn_cancel': k}, nontrivial=True)
+        if early or total != 1:
+            ctx.fail('cancel:resources-released-while-the-process-still-runs' if early else 'cancel:resources-not-released-once',
+                     'a cancelled task whose process outlives the launcher\'s signal: %d release(s) published while it was still running, %d in all'
+                     % (early, total), {'script': None, 'stubborn_cancel': k})
+    ctx.obligation('real Popen.cancel_task on a process that does not end at once: its resources are given back when it is gone, once', 'tie', True, '')
+
+
 def run(ctx):
     schedsuite.run(ctx, 'C03')
     nodelistsuite.run(ctx, 'C03')
     nodelistsuite.run_concurrent(ctx)
     noopsuite.run(ctx, 'C03')
+    stubborn_cancel_part(ctx, rpload.load())
 def replay(ctx, data):
+    if 'stubborn_cancel' in data['input']:
+        early, total = run_stubborn_cancel(rpload.load(), data['input']['stubborn_cancel'])
+        print(early, total)
+        return not early and total == 1
     if 'noop' in data['input']:
         return noopsuite.replay(ctx, data)
     if 'nodelist' in data['input'] or 'conc' in data['input']:
